@@ -88,9 +88,15 @@ class Canonicalizer:
             )
         elif isinstance(expression, Product):
             # note: safe already sorts
-            return Product.safe(
-                self.canonicalize(subexpr) for subexpr in _flatten_product(expression)
-            )
+            factors: list[Expression] = []
+            for subexpr in _flatten_product(expression):
+                canonical_subexpr = self.canonicalize(subexpr)
+                if isinstance(canonical_subexpr, Product):
+                    # a factor (e.g., a fraction) can canonicalize to a product, which has to be flattened too
+                    factors.extend(canonical_subexpr.expressions)
+                else:
+                    factors.append(canonical_subexpr)
+            return Product.safe(factors)
         elif isinstance(expression, Fraction):
             numerator = self.canonicalize(expression.numerator)
             # TODO check if there's a zero in numerator, then return zero if so
